@@ -170,6 +170,29 @@ func confirm(sc *Scenario, choices []int, v *eng.Violation, outcome string) bool
 	return true
 }
 
+// sameClass counts the recorded violations with v's symptom, op and features: the
+// cap on recorded violations is per class, so that many executions of one
+// (possibly known) class cannot crowd out a different class.
+func sameClass(vs []*eng.Violation, v *eng.Violation) int {
+	n := 0
+	for _, w := range vs {
+		if w.Symptom != v.Symptom || w.Op != v.Op || len(w.Features) != len(v.Features) {
+			continue
+		}
+		same := true
+		for k, x := range v.Features {
+			if w.Features[k] != x {
+				same = false
+				break
+			}
+		}
+		if same {
+			n++
+		}
+	}
+	return n
+}
+
 // subtree explores everything below prefix (inclusive) within the bound.
 func subtree(sc *Scenario, it item, st *stats, split bool) (children []item) {
 	var rec func(prefix []int, cost int)
@@ -211,7 +234,7 @@ func subtree(sc *Scenario, it item, st *stats, split bool) (children []item) {
 		}
 		if v != nil {
 			if confirm(sc, res.Choices, v, out) {
-				if len(st.Viols) < 50 {
+				if sameClass(st.Viols, v) < 3 && len(st.Viols) < 500 {
 					st.Viols = append(st.Viols, v)
 				}
 			} else {
